@@ -46,6 +46,13 @@ func makeDepGraph(program Program) depGraph {
 		s := rule.Head.Predicate
 		dep.initNode(s)
 		for _, premise := range rule.Premises {
+			// A temporal literal depends on the predicate of its underlying literal.
+			if tl, ok := premise.(ast.TemporalLiteral); ok {
+				premise = tl.Literal
+			}
+			if ta, ok := premise.(ast.TemporalAtom); ok {
+				premise = ta.Atom
+			}
 			switch p := premise.(type) {
 			case ast.Atom:
 				if _, ok := builtin.Predicates[p.Predicate]; ok {
